@@ -116,7 +116,7 @@ Arg *arglist_find(ArgList arglist, char *node)
 {
     Arg *arg = NULL;
 
-    if (node != NULL)
+    if (arglist != NULL && node != NULL)
         arg = hash_find(arglist->args, node);
 
     return arg;
